@@ -11,6 +11,7 @@
 #include <nitro/options/arguments.hpp>
 #include <algorithm>
 #include <memory>
+#include <set>
 
 using namespace vh;
 
@@ -98,8 +99,167 @@ static std::string obs_ok(const nitro::options::arguments& a, const std::vector<
     return r;
 }
 
+struct decl_t
+{
+    std::vector<odecl> os;
+    std::vector<mdecl> ms;
+    std::vector<tdecl> ts;
+    std::string allowed, greedy;
+    bool ok = false;
+};
+
+static decl_t read_decl(const std::string& word)
+{
+    decl_t d;
+    auto df = split_on(word, ';');
+    if (df.size() != 5) return d;
+    d.allowed = df[0];
+    d.greedy = df[1];
+    for (auto& e : entries(df[2]))
+    {
+        auto f = split_on(e, ':');
+        odecl o;
+        o.name = unhex(f[0]); o.has_sh = f[1] != "~"; o.sh = o.has_sh ? unhex(f[1]) : ""; o.has_env = f[2] != "~"; o.env = o.has_env ? unhex(f[2]) : "";
+        o.has_def = f[3] != "~"; o.def = o.has_def ? unhex(f[3]) : ""; o.opt = f[4] == "1";
+        d.os.push_back(o);
+    }
+    for (auto& e : entries(df[3]))
+    {
+        auto f = split_on(e, ':');
+        mdecl o;
+        o.name = unhex(f[0]); o.has_sh = f[1] != "~"; o.sh = o.has_sh ? unhex(f[1]) : ""; o.has_env = f[2] != "~"; o.env = o.has_env ? unhex(f[2]) : "";
+        o.has_def = f[3] != "~"; if (o.has_def) o.def = unwire_strs(f[3]); o.opt = f[4] == "1";
+        d.ms.push_back(o);
+    }
+    for (auto& e : entries(df[4]))
+    {
+        auto f = split_on(e, ':');
+        tdecl o;
+        o.name = unhex(f[0]); o.has_sh = f[1] != "~"; o.sh = o.has_sh ? unhex(f[1]) : ""; o.has_env = f[2] != "~"; o.env = o.has_env ? unhex(f[2]) : "";
+        o.def = std::atoi(f[3].c_str()); o.rev = f[4] == "1";
+        d.ts.push_back(o);
+    }
+    d.ok = true;
+    return d;
+}
+
+// declares on p everything of d that `have` does not contain yet (by long name)
+static void declare_into(nitro::options::parser& p, const decl_t& d, std::set<std::string>& have)
+{
+    for (auto& o : d.os)
+    {
+        if (!have.insert(o.name).second) continue;
+        auto& x = p.option(o.name, "d");
+        if (o.has_sh) x.short_name(o.sh);
+        if (o.has_env) x.env(o.env);
+        if (o.has_def) x.default_value(o.def);
+        if (o.opt) x.optional();
+    }
+    for (auto& o : d.ms)
+    {
+        if (!have.insert(o.name).second) continue;
+        auto& x = p.multi_option(o.name, "d");
+        if (o.has_sh) x.short_name(o.sh);
+        if (o.has_env) x.env(o.env);
+        if (o.has_def) x.default_value(o.def);
+        if (o.opt) x.optional();
+    }
+    for (auto& o : d.ts)
+    {
+        if (!have.insert(o.name).second) continue;
+        auto& x = p.toggle(o.name, "d");
+        if (o.has_sh) x.short_name(o.sh);
+        if (o.has_env) x.env(o.env);
+        x.default_value(o.def);
+        if (o.rev) x.allow_reverse();
+    }
+    if (d.allowed == "~") p.accept_positionals();
+    else p.accept_positionals(static_cast<std::size_t>(std::atol(d.allowed.c_str())));
+    p.greedy_postionals(d.greedy == "1");
+}
+
+static void apply_env(const decl_t& d, const std::string& envword, std::vector<std::string>& set_names)
+{
+    for (auto& n : set_names) unsetenv(n.c_str());
+    set_names.clear();
+    for (auto& o : d.os) if (o.has_env) unsetenv(o.env.c_str());
+    for (auto& o : d.ms) if (o.has_env) unsetenv(o.env.c_str());
+    for (auto& o : d.ts) if (o.has_env) unsetenv(o.env.c_str());
+    for (auto& e : entries(envword))
+    {
+        auto f = split_on(e, '=');
+        setenv(unhex(f[0]).c_str(), unhex(f[1]).c_str(), 1);
+        set_names.push_back(unhex(f[0]));
+    }
+}
+
+static std::string one_parse(nitro::options::parser& q, const decl_t& d, const std::vector<std::string>& args)
+{
+    std::vector<const char*> argv;
+    argv.push_back("prog");
+    for (auto& s : args) argv.push_back(s.c_str());
+    try
+    {
+        auto a = q.parse(static_cast<int>(argv.size()), argv.data());
+        return obs_ok(a, d.os, d.ms, d.ts, q, false);
+    }
+    catch (const nitro::options::parsing_error&) { return "USER"; }
+    catch (const nitro::options::parser_error&) { return "DEV"; }
+    catch (const std::exception& e) { return std::string("OTHER(") + typeid(e).name() + ")"; }
+}
+
+// steps <decl> <env> step...   step = a:<argv> (parse on the long-lived object, then on a fresh identical parser)
+//                                     | e:<env> (change the environment) | d:<decl> (declare more: a superset of the current one)
+static std::string run_steps(const std::vector<std::string>& w)
+{
+    decl_t cur = read_decl(w[1]);
+    if (!cur.ok) return "BADCASE";
+    std::vector<std::string> set_names;
+    std::string envword = w[2];
+    apply_env(cur, envword, set_names);
+    std::string out;
+    try
+    {
+        nitro::options::parser p("app", "about");
+        std::set<std::string> have;
+        declare_into(p, cur, have);
+        bool first = true;
+        for (std::size_t k = 3; k < w.size(); k++)
+        {
+            const std::string& st = w[k];
+            if (st.size() < 2 || st[1] != ':') return "BADCASE";
+            std::string arg = st.substr(2);
+            if (st[0] == 'e') { envword = arg; apply_env(cur, envword, set_names); }
+            else if (st[0] == 'd')
+            {
+                decl_t nd = read_decl(arg);
+                if (!nd.ok) return "BADCASE";
+                declare_into(p, nd, have);
+                cur = nd;
+                apply_env(cur, envword, set_names);
+            }
+            else if (st[0] == 'a')
+            {
+                auto args = unwire_strs(arg);
+                if (!first) out += " | ";
+                first = false;
+                out += one_parse(p, cur, args);
+                nitro::options::parser fresh("app", "about");
+                std::set<std::string> none;
+                declare_into(fresh, cur, none);
+                out += " # " + one_parse(fresh, cur, args);
+            }
+            else return "BADCASE";
+        }
+    }
+    catch (const nitro::options::parser_error&) { out = "DECL-DEV"; }
+    for (auto& n : set_names) unsetenv(n.c_str());
+    return out;
+}
+
 static std::string run_case(const std::vector<std::string>& w)
 {
+    if (w.size() >= 4 && w[0] == "steps") return run_steps(w);
     if (w.size() < 4 || (w[0] != "parse" && w[0] != "parsel" && w[0] != "hist")) return "BADCASE";
     bool hist = w[0] == "hist";
     bool typed = w[0] == "parsel";
